@@ -119,7 +119,7 @@ func (e *c16Expr) Src() string {
 }
 
 type c16Stmt struct {
-	T       string // ret | if | let | mark | for (N = loop variable, E = iterable, Then = body)
+	T       string // ret | if | let | mark | for (N = loop variable, E = iterable, Then = body) | probe (E = a call that may fail, N = the form that forgives it, ID = number of its throw-away local; see oracle_c16_scope.go)
 	E       *c16Expr
 	N       string
 	ID      int
@@ -154,6 +154,8 @@ func c16Block(ss []*c16Stmt, ind string) string {
 			b.WriteString(ind + "c16mark(" + strconv.Itoa(s.ID) + ")\n")
 		case "for":
 			b.WriteString(ind + "for (" + s.N + ") in " + s.E.Src() + " {\n" + c16Block(s.Then, ind+" ") + ind + "}\n")
+		case "probe":
+			b.WriteString(c16ProbeSrc(s.N, s.E, s.ID, ind))
 		case "if":
 			b.WriteString(ind + "if (" + s.E.Src() + ") {\n" + c16Block(s.Then, ind+" "))
 			for _, e := range s.Elifs {
@@ -191,8 +193,10 @@ func (e *c16Env) get(n string) (c16Val, bool) {
 type c16Ref struct {
 	marks     []int
 	steps     int
-	loops     int  // loop bodies the evaluation is currently inside of (within the current function activation)
-	retInLoop bool // some return was reached inside a loop body
+	loops     int          // loop bodies the evaluation is currently inside of (within the current function activation)
+	retInLoop bool         // some return was reached inside a loop body
+	failCall  *c16FailCall // the innermost call whose body failed on the unset variable (see probe)
+	probes    []string     // one standalone template per forgiven failure (see c16Case.Probes)
 }
 
 type c16Stuck struct{ why string }
@@ -244,7 +248,7 @@ func (m *c16Ref) eval(e *c16Expr, env *c16Env) c16Val {
 		}
 		saved := m.loops // a loop around the CALL is not a loop around the callee's return
 		m.loops = 0
-		v, ret := m.run(fv.F.Body, c)
+		v, ret := m.body(fv.F, args, c)
 		m.loops = saved
 		if !ret {
 			panic(c16Stuck{"no return reached"})
@@ -340,6 +344,8 @@ func (m *c16Ref) run(ss []*c16Stmt, env *c16Env) (c16Val, bool) {
 			env.vars[s.N] = m.eval(s.E, env)
 		case "mark":
 			m.marks = append(m.marks, s.ID)
+		case "probe":
+			m.probe(s.E, s.N, env)
 		case "for":
 			it := m.eval(s.E, env)
 			if it.K != "arr" {
@@ -389,6 +395,17 @@ type c16Case struct {
 	Site  string `json:"site"` // how the call's value is used
 	// context values (name -> literal in template syntax) besides the helpers
 	Ctx map[string]string `json:"ctx,omitempty"`
+	// templates rendered before Tmpl, in this order, with the SAME context (what their top-level lets bind stays
+	// visible); their output precedes that of Tmpl in Want
+	Pre []string `json:"pre,omitempty"`
+	// what the partialFeeder of the context answers: name -> template
+	Partials map[string]string `json:"partials,omitempty"`
+	// every template goes through plush.Parse + Template.Exec instead of plush.Render
+	Exec bool `json:"exec,omitempty"`
+	// the case contains calls that fail on an unset variable in a place where plush forgives that (operand of
+	// == != && || !, a condition). Whether it forgives is NOT part of the property: each of these templates holds one
+	// such failure on its own; when the case ends in an error and one of them does too, the case is open
+	Probes []string `json:"probes,omitempty"`
 }
 
 // c16GoVal: the Go value of a literal written in template syntax ("x", 2, true).
@@ -436,8 +453,36 @@ func c16Eval(cs *c16Case) c16Verdict {
 	for k, v := range cs.Ctx {
 		data[k] = c16GoVal(v)
 	}
+	if cs.Partials != nil {
+		data["partialFeeder"] = func(name string) (string, error) {
+			if t, ok := cs.Partials[name]; ok {
+				return t, nil
+			}
+			return "", fmt.Errorf("c16: no partial %q", name)
+		}
+	}
 	ctx := plush.NewContextWith(data)
-	o := safeCall(3*time.Second, func() (string, error) { return plush.Render(cs.Tmpl, ctx) })
+	render := func(t string) (string, error) {
+		if cs.Exec {
+			tm, err := plush.Parse(t)
+			if err != nil {
+				return "", err
+			}
+			return tm.Exec(ctx)
+		}
+		return plush.Render(t, ctx)
+	}
+	o := safeCall(3*time.Second, func() (string, error) {
+		out := ""
+		for _, t := range append(append([]string{}, cs.Pre...), cs.Tmpl) {
+			s, err := render(t)
+			if err != nil {
+				return out + s, err
+			}
+			out += s
+		}
+		return out, nil
+	})
 	switch o.Kind() {
 	case "PANIC":
 		return c16Verdict{"panic", o.Site, "render panicked: " + o.Panic, "PANIC"}
@@ -446,6 +491,9 @@ func c16Eval(cs *c16Case) c16Verdict {
 	}
 	if cs.Arity {
 		return c16Verdict{Obs: o.Kind()}
+	}
+	if o.Kind() == "ERR" && c16ProbesOpen(cs) {
+		return c16Verdict{Obs: "ERR-open"}
 	}
 	if o.Kind() == "ERR" {
 		return c16Verdict{"wrong-error", cs.Shape, fmt.Sprintf("expected %q (call value used in: %s), got error: %v", cs.Want, cs.Site, o.Err), "ERR"}
@@ -490,12 +538,13 @@ func c16Record(rep *Report, cs *c16Case, v c16Verdict) {
 func init() {
 	oracles["C16"] = func(cfg Config) []*Report {
 		rep := NewReport("C16", "C16", cfg)
-		rep.Rule = "generated functions of 0-4 typed parameters (int/string/bool) whose bodies are decision chains (if / else-if / else, nested ifs, let-bound locals, returns of parameters, literals, concatenations, sums, comparisons; c16mark statements before and after returns), called with ALL tuples over {0,1,2} x {\"x\",\"y\"} x {true,false}; arguments written as literals, as caller variables named like the parameters in the same order, permuted (f(b, a)), or as expressions over them (f(b, a + 1)); the value used in an output tag, an if condition, ==, let (+ later ==), as argument of another user function and of a Go helper (which must receive the plain Go value), in string concatenation / arithmetic / negation; first-class use (stored in a variable, passed as an argument and called through a parameter, also with parameter names that collide); recursion to depth 6 (countdown, sum, factorial, string building, accumulators in both parameter orders, fibonacci, mutual recursion, let-bound intermediate); too few arguments (must not panic); arguments that are, or contain, user function calls, in every argument position (the function itself with another tuple, another generated decision chain, identity / k-th-of-m projection functions whose other arguments differ from the outer call's, two levels deep, as operand of an argument expression; also through a stored / passed function), recursion through an argument (add(n, sum(n - 1)), f(n - 1, f(0, ..)) in first and later positions); a second call of the function after an earlier call with another tuple; loops in function bodies (for { if { return } }, for { return }, nested for, for inside if / else, two loops; arrays passed as literal / caller variable or written in the body; marks before, inside and after the loop); nil- and zero-valued arguments (optional parameters with values nil / \"\" 0 false / another value, every tuple with a nil among up to 12 per function; nil written as nil, a missing map key, the result of a helper; the body tests such parameters with == nil, != nil, nil ==, truth, !, == value) while a non-nil variable named like each parameter is visible from the call site: a let, a loop variable, a value of the render context, the parameter of a calling function, the same parameter of the calling invocation (recursions that pass nil on, depth 0..6); histories in which ONE call site is evaluated several times while its callee name holds different functions (2-4 generated chains of one signature with disjoint marks): a higher-order function used 2-5 times with alternating function arguments (named, stored, or the value of a chooser function; result returned / let-bound / compared / tested / concatenated inside it), a loop variable ranging over a list of functions (also nested with a loop over argument values, list stored first), a free name re-bound (assignment or let) between uses of the function that calls it, recursive / composing combinators (rep, twice, comp, zig) whose callbacks change between uses, a local that holds either function, and one call site in a loop over argument values. Expected value and executed marks from a call-by-value reference evaluator. Every case calls a user function; non-trivial = all; distinct by case text"
+		rep.Rule = "generated functions of 0-4 typed parameters (int/string/bool) whose bodies are decision chains (if / else-if / else, nested ifs, let-bound locals, returns of parameters, literals, concatenations, sums, comparisons; c16mark statements before and after returns), called with ALL tuples over {0,1,2} x {\"x\",\"y\"} x {true,false}; arguments written as literals, as caller variables named like the parameters in the same order, permuted (f(b, a)), or as expressions over them (f(b, a + 1)); the value used in an output tag, an if condition, ==, let (+ later ==), as argument of another user function and of a Go helper (which must receive the plain Go value), in string concatenation / arithmetic / negation; first-class use (stored in a variable, passed as an argument and called through a parameter, also with parameter names that collide); recursion to depth 6 (countdown, sum, factorial, string building, accumulators in both parameter orders, fibonacci, mutual recursion, let-bound intermediate); too few arguments (must not panic); arguments that are, or contain, user function calls, in every argument position (the function itself with another tuple, another generated decision chain, identity / k-th-of-m projection functions whose other arguments differ from the outer call's, two levels deep, as operand of an argument expression; also through a stored / passed function), recursion through an argument (add(n, sum(n - 1)), f(n - 1, f(0, ..)) in first and later positions); a second call of the function after an earlier call with another tuple; loops in function bodies (for { if { return } }, for { return }, nested for, for inside if / else, two loops; arrays passed as literal / caller variable or written in the body; marks before, inside and after the loop); nil- and zero-valued arguments (optional parameters with values nil / \"\" 0 false / another value, every tuple with a nil among up to 12 per function; nil written as nil, a missing map key, the result of a helper; the body tests such parameters with == nil, != nil, nil ==, truth, !, == value) while a non-nil variable named like each parameter is visible from the call site: a let, a loop variable, a value of the render context, the parameter of a calling function, the same parameter of the calling invocation (recursions that pass nil on, depth 0..6); histories in which ONE call site is evaluated several times while its callee name holds different functions (2-4 generated chains of one signature with disjoint marks): a higher-order function used 2-5 times with alternating function arguments (named, stored, or the value of a chooser function; result returned / let-bound / compared / tested / concatenated inside it), a loop variable ranging over a list of functions (also nested with a loop over argument values, list stored first), a free name re-bound (assignment or let) between uses of the function that calls it, recursive / composing combinators (rep, twice, comp, zig) whose callbacks change between uses, a local that holds either function, and one call site in a loop over argument values; scope histories (oracle_c16_scope.go): (1) a function defined by ONE template and called by ANOTHER one - 1-3 later renders with the same context (plush.Render or Parse + Exec, the function also stored under another name by a render in between) or a partial of the defining / a later page (data named like the parameters, the function handed over as data) - from a call site with variables of its own: inside another function (parameters named like the callee's, rotated, permuted arguments), in a for loop (loop variable named like a parameter), in a partial, a loop around the partial, a loop / function inside the partial, while top-level variables of the same names hold other values; (2) a call that FAILS on an unset variable (in its body, 0-4 frames down a recursion, through another user function, through a function parameter, inside a loop of the body, inside an argument of another call, or an argument that is the unset variable itself) in a place where plush forgives that (18 forms: operand of == != && || !, left and right, if / else-if conditions), value discarded, followed by reads of the caller's variables named like the failed callee's parameters and by further calls over them (same names / permuted / expressions) - at top level, inside a calling function (1-2 failures, then its return value), in a loop body, in a partial; ~88% of these histories contain a failing call. Expected value and executed marks from a call-by-value reference evaluator. Every case calls a user function; non-trivial = all; distinct by case text"
 		rep.Notes = append(rep.Notes,
 			"not checked (open): too many arguments; a function whose body reaches no return; text emitted inside a function body; let inside a loop body; too few arguments is only required not to panic or hang",
 			"family ids are derived from the shape of the case, not from the symptom: args-evaluated-in-callee-scope = arguments mention caller variables named like parameters in another position; call-value-is-return-object = the call's value is consumed by anything other than an output tag; cases with both features are reduced to one feature when that still fails; argument-is-call-result = an argument of the call is (or contains) a user function call (arguments that are calls are turned back into their plain values while the case still fails); call-after-earlier-call = the function was called before with other arguments",
 			"nil-argument-binds-parameter: plush treats a variable that holds nil as unset everywhere (a plain let too), so a parameter bound to nil can only be mentioned in ==, !=, !, &&, || and conditions; only those uses are generated and checked, anything else is left open (the reference refuses it: not-a-case). Passing a nil-valued variable on as an argument is open for the same reason",
 			"histories (…-another-function, loop-over-…, local-holds-either-function): every emitted value is followed by |; a history that still fails after it was reduced to a single use is reported as <family>:single-use (then the failure does not need several uses)",
+			"scope histories: function-called-from-later-render / function-called-from-partial = the function value is called by another evaluation than the one that created it (…:single-render = the case still fails as one template); caller-scope-after-failed-call = something after a forgiven failing call is wrong (…:no-failed-call = the case still fails without the failing call). Whether plush forgives a failure inside a function body is NOT checked (open): the value of the forgiving expression is never used, and a case that ends in an error is only a failure if each forgiven failure on its own (case field probes) renders without error - otherwise it is counted as ERR-open",
 			"return-inside-loop-does-not-end-function: the property says the call yields the value of the first return reached, skipping everything after it; in plush a return inside a for body only ends that iteration. Cases of the loop family in which the reference reaches a return inside a loop are reported under this one id, the others under loop-in-function-body")
 		if cfg.Arg != "" {
 			var cs c16Case
